@@ -271,7 +271,38 @@ pub fn locations(depth: usize) -> Vec<String> {
 pub fn run(thorough: bool) -> i32 {
     let mut rep = Report::new("C05", "exploration", if thorough { "thorough" } else { "quick" });
     let depth = if thorough { 5 } else { 3 };
-    let locs = locations(depth);
+    let mut locs = locations(depth);
+    // deeper strings over a reduced alphabet (names of folders that do not exist yet, '.', '..'): escapes that
+    // depend on the state of the destination (a '..' run through a folder still to be created) need more
+    // segments than the full alphabet affords in the quick tier
+    {
+        let prefixes = ["file:///", "http://h/", "x:", "x:/", "", "/"];
+        let segs = ["fresh", "n", ".", ".."];
+        let maxd = if thorough { 6 } else { 5 };
+        let mut cur: Vec<Vec<&str>> = vec![vec![]];
+        for d in 1..=maxd {
+            let mut next = Vec::new();
+            for c in &cur {
+                for sg in segs {
+                    let mut n = c.clone();
+                    n.push(sg);
+                    next.push(n);
+                }
+            }
+            if d > depth {
+                for n in &next {
+                    if n.contains(&"..") && *n.last().unwrap() != "." && *n.last().unwrap() != ".." {
+                        for p in prefixes {
+                            locs.push(format!("{}{}", p, n.join("/")));
+                        }
+                    }
+                }
+            }
+            cur = next;
+        }
+        locs.sort();
+        locs.dedup();
+    }
     let nloc = locs.len();
     // chunks of locations, one sandbox per chunk
     let chunk = 400;
